@@ -154,6 +154,73 @@ func genC05(c *lp.Ctx) {
 	}
 }
 
+// genC05empty: the stream of an EMPTY trie loaded into an instance that holds a non-empty one (no
+// Reset in between), and the other way round: answers, Stat, String and re-Marshal as from a fresh load.
+func genC05empty(c *lp.Ctx) {
+	n := c.Pick(40, 150)
+	for it := 0; it < n; it++ {
+		full := NewCase(c.Rng, gen.Any(c.Rng, 150), "", "")
+		if len(full.Keys) == 0 {
+			continue
+		}
+		empty := NewCase(c.Rng, gen.KeySet{Class: "empty"}, full.Flags, full.Enc)
+		if !build(c, empty) {
+			continue
+		}
+		qs := gen.Queries(c.Rng, full.Keys, 12)
+		ebuf := currentStream()
+		eans := empty.battery(c, qs, true)
+		em := c.Do("trie.marshal")
+		if !build(c, full) {
+			continue
+		}
+		fbuf := currentStream()
+		fans := full.battery(c, qs, true)
+		if ebuf == nil || fbuf == nil {
+			continue
+		}
+		c.Case("empty-into-used|"+full.Key(), true)
+		// built instance <- empty stream; loaded instance <- empty stream; then the full one again
+		for _, start := range []string{"built", "loaded"} {
+			if start == "loaded" {
+				c.Do("trie.fresh " + full.Enc)
+				if a := c.Do("trie.unmarshal " + lp.X(fbuf)); a != "ok" {
+					full.viol(c, "load of a valid stream", "trie.unmarshal", "ok", a)
+					continue
+				}
+			} else if !build(c, full) {
+				continue
+			}
+			c.Hit("history:" + start + "-nonempty,U(empty),U(nonempty)")
+			if a := c.Do("trie.unmarshal " + lp.X(ebuf)); a != "ok" {
+				empty.viol(c, "load of the stream of an empty trie into a used instance", "trie.unmarshal", "ok", a)
+				continue
+			}
+			got := empty.battery(c, qs, true)
+			for i := range got {
+				if got[i] != eans[i] {
+					full.viol(c, "no residue after loading an EMPTY trie into a "+start+" non-empty instance (answer #"+fmt.Sprint(i)+")",
+						"trie.unmarshal "+lp.X(ebuf), eans[i], got[i])
+					break
+				}
+			}
+			if m := c.Do("trie.marshal"); m != em {
+				full.viol(c, "Marshal after loading an empty trie into a used instance", "trie.marshal", em, m)
+			}
+			if a := c.Do("trie.unmarshal " + lp.X(fbuf)); a != "ok" {
+				continue
+			}
+			got = full.battery(c, qs, true)
+			for i := range got {
+				if got[i] != fans[i] {
+					full.viol(c, "no residue after empty -> non-empty load (answer #"+fmt.Sprint(i)+")", "trie.unmarshal", fans[i], got[i])
+					break
+				}
+			}
+		}
+	}
+}
+
 // genC07: after a rejected load the instance answers as an empty trie.
 func genC07(c *lp.Ctx) {
 	n := c.Pick(150, 500)
@@ -573,6 +640,7 @@ func protoSize(st *slim.SlimTrie) int {
 func init() {
 	lp.RegisterGen("C05", genC05)
 	lp.RegisterGen("C07", genC07)
+	lp.RegisterGen("C05", genC05empty)
 	lp.RegisterGen("C17", genC17)
 	lp.RegisterGen("C20", genC20)
 }
